@@ -138,6 +138,7 @@ type openSpec struct {
 	AddPath  int // 0 none, 1 receive, 2 send, 3 both (peer's view)
 	DupCaps  bool
 	Unknown  bool
+	APExtra  bool // the ADD-PATH capability also lists ipv6-unicast although no Multiprotocol capability does
 	Families []string
 	AS       uint32
 }
@@ -226,6 +227,8 @@ func genFSM(seed uint64, tier, mode string) *Script {
 			}
 			if g.p(40) {
 				fl = append(fl, "v6")
+			} else if g.p(50) {
+				fl = append(fl, "apextra")
 			}
 			o.Arg2 = strings.Join(fl, ",")
 			ops = append(ops, o)
@@ -350,6 +353,9 @@ func (w *simWorld) buildOpenSpec(cfg *PeerCfg, o openSpec) []byte {
 		for _, fn := range fams {
 			f := famByName(fn)
 			v = append(v, byte(f.AFI>>8), byte(f.AFI), f.SAFI, byte(o.AddPath))
+		}
+		if o.APExtra && !hasString(fams, "ipv6-unicast") {
+			v = append(v, 0, 2, 1, byte(o.AddPath))
 		}
 		addCap(69, v)
 		if o.DupCaps {
@@ -677,6 +683,8 @@ func fsmOp(w *simWorld, actor int, op *Op) {
 				o.Unknown = true
 			case f == "v6":
 				o.Families = append(o.Families, "ipv6-unicast")
+			case f == "apextra":
+				o.APExtra = true
 			}
 		}
 		if o.NoAS4 && o.AS > 65535 {
